@@ -111,6 +111,11 @@ def build(cls, case, fem):
             off_um = fem.LinearElastic(E=7.0 * mu, nu=0.1) if dim == 3 else fem.constitution.LinearElasticPlaneStrain(E=7.0 * mu, nu=0.1)
             items.append(fem.SolidBody(off_um, fcx, multiplier=0.0))
             switched_off.append(1)
+        if cls == "linear" and "mpc" in case["extra"] and not plain2d:
+            # a multi-point constraint with a skipped axis next to a linear-elastic body: still a linear problem
+            right = np.where(np.isclose(X[:, 0], X[:, 0].max()))[0]
+            if len(right) >= 3:
+                items.append(fem.MultiPointConstraint(fcx, points=right[1:], centerpoint=int(right[0]), skip=((1, 0, 0), (0, 1, 0), (0, 0, 1))[case["pseed"] % 3][:dim] + (0,) * (3 - dim), multiplier=50.0))
         if cls == "loads":
             rng = np.random.default_rng(case["pseed"])
             for e in case["extra"]:
